@@ -81,8 +81,18 @@ func sharedSchema() *jsonapi.Schema {
 		"x": {FromType: "t8", FromName: "x", ToOne: true, ToType: "t9", ToName: "y"}}}))
 	must(s.AddType(jsonapi.Type{Name: "t9", Rels: map[string]jsonapi.Rel{
 		"y": {FromType: "t9", FromName: "y", ToOne: true, ToType: "t8", ToName: "other"}}}))
+	// a type declared by hand whose NewFunc wraps a struct: nothing has wrapped that struct type
+	// before the requests do (a Go type of its own for every schema built in this process)
+	sharedSchemaSeq++
+	fields10 := defMap{fmt.Sprintf("d%d", sharedSchemaSeq): {Kind: "attr", K: "string"}}
+	st10 := structType("t10", fields10, kindMap{})
+	t10 := softType("t10", fields10, kindMap{})
+	t10.NewFunc = func() jsonapi.Resource { return jsonapi.Wrap(reflect.New(st10).Interface()) }
+	must(s.AddType(*t10))
 	return s
 }
+
+var sharedSchemaSeq int
 
 // snapshot: location -> description (content and identity)
 func schemaSnapshot(s *jsonapi.Schema) map[string]string {
@@ -94,7 +104,7 @@ func schemaSnapshot(s *jsonapi.Schema) map[string]string {
 		t := &s.Types[i]
 		// what the type creates is part of the type: a fresh resource, by its readable content
 		fresh := ""
-		if t.NewFunc != nil {
+		if t.NewFunc != nil && t.Name != "t10" { // (t10's struct stays unwrapped until the requests come)
 			r := t.New()
 			fresh = fmt.Sprintf("id=%q", r.Get("id"))
 			for _, f := range sortedKeys(r.Attrs()) {
@@ -176,6 +186,12 @@ func sharedOp(s *jsonapi.Schema, op string, p int) {
 		// what this request read stays its own while the next payload is read (by anybody)
 		_, err = jsonapi.UnmarshalResource([]byte(`{"type":"t1","id":"other","meta":{"owner":"other","more":1},"attributes":{"a":"y"}}`), s)
 		must(err)
+		// a collection several of whose members are refused: an error, whichever way the members are read
+		bad := `{"data":[{"type":"t1","id":"b1","attributes":{"n":"x"}},{"type":"t2","id":"b2","attributes":{"b":7}},` +
+			`{"type":"t1","id":"b3","attributes":{"zz":1}},{"type":"t1","id":"b4","attributes":{"a":"ok"}}]}`
+		if d, err := jsonapi.UnmarshalDocument([]byte(bad), s); err == nil || d != nil {
+			panic("a collection with refused members was accepted")
+		}
 		first := doc.Data.(jsonapi.Collection).At(0)
 		if mh, ok := first.(jsonapi.MetaHolder); !ok || len(mh.Meta()) != 1 || mh.Meta()["owner"] != id ||
 			first.Get("id") != id || first.Get("a") != "x" {
